@@ -53,6 +53,10 @@ EXPLANATION += ' R4: the one frozen termination exception (the CP2K basis reader
 TECHNIQUE += '; evaluation of the exception constructor / renderer (super() of the exception bases modelled)'
 EXPLANATION += " R10: BaseFileError is no longer matched by statement: its constructor and __str__ are interpreted for every kind of file argument and the attributes (filename, lineno) and the rendered text are compared with the expected ones. R6: stores to `.lineno` through tuple targets are seen; `self.lineno` of a class that does not derive from LineIterator is that object's own attribute."
 # --- end metadata round-2 twins
+# --- metadata added after the round-3 refactoring twins
+TECHNIQUE += '; scenario evaluation of the LineIterator class; per-case line consumption of dictionary-returning helpers'
+EXPLANATION += ' R6: the LineIterator class is interpreted on a model file of four lines through a script of ten reads and push-backs (counter from 0, one per read, minus one per push-back, last-in first-out before the file, StopIteration at the end, close on exit). R4: a dictionary a module helper returns carries the helper\'s minimum line consumption separately for "returned empty" and "returned filled", so that `info = helper(lit); info["key"]` keeps the progress argument of the inlined loop.'
+# --- end metadata round-3 twins
 
 
 def _derives_from(prog, cls, base):
